@@ -687,11 +687,17 @@ var unitPool = []valSpec{
 	{"MB/op", ""}, {"B/op-max", ""}, {"KiB/op", ""}, {"ns/op2", ""}, {"sec/op", "Mns/op"}, {"xx", "x"},
 }
 
+var dashNames = []string{"aes-128gcm", "Read-64k", "x86-64v3", "Read-4k", "aes-256gcm", "a-1b", "sha-3x-2y"}
+
 var sizes = []int{0, 1, 2, 3, 5, 8, 31, 32, 33, 40, 63, 64, 65, 96, 97, 100}
 
 func genRes(r *hx.Rand) *resSpec {
 	rs := &resSpec{}
 	name := hx.Pick(r, []string{"Foo", "Bar", "Foo-bar", "Baz", "Foo", "", "XFoo", "FooX", "XFooX", "Fo", "Barn"})
+	// slash-less names whose last dash is followed by digits and then letters: no -N suffix there
+	if r.Chance(1, 6) {
+		name = hx.Pick(r, dashNames)
+	}
 	if r.Chance(1, 2) {
 		name += hx.Pick(r, []string{"/size=1", "/size=2", "/size=1k", "/size="})
 	}
@@ -786,7 +792,14 @@ func valuesFor(r *hx.Rand, key string, rs *resSpec) []string {
 		}
 		return append(vs, "ns/op", "sec/op", "B/op", "x", "")
 	case ".name":
-		return []string{"Foo", "Bar", "Foo-bar", "Baz", "", "Foo-8"}
+		vs := []string{"Foo", "Bar", "Foo-bar", "Baz", "", "Foo-8"}
+		for _, d := range dashNames {
+			if strings.HasPrefix(rs.name, d) || strings.HasPrefix(d, strings.SplitN(rs.name, "-", 2)[0]+"-") {
+				// the whole slash-less name (its base), neighbours, and what a wrong cut at the last dash leaves
+				vs = append(vs, d, d, d+"-8", d[:strings.LastIndexByte(d, '-')], "Read-4k", "Read-64k")
+			}
+		}
+		return vs
 	case ".fullname":
 		return []string{rs.name, rs.name, "Foo", "Foo/size=1", "Bar-8"}
 	case "/size":
@@ -808,6 +821,7 @@ func valuesFor(r *hx.Rand, key string, rs *resSpec) []string {
 // fully / half anchored literals, \A…\z, (?:…) groups, escaped slashes: the literal sub-language
 // (Spec.LitRegexp); the values below contain / extend these literals (prefix, suffix, infix, exact)
 var litRePool = []string{"^Foo$", "^Fo$", "^oo$", `\AFoo\z`, "^(?:Foo)$", "(?:Foo)", "^Foo", "Foo$", "Foo", "oo", `\AFo`, `ar\z`,
+	"gcm$", "^aes$", "^aes-128gcm$", "^Read-64k$", "^Read$", "64k$", "v3$", "^x86", "-128",
 	"^Bar$", "^Ba$", "^Foo-bar$", "^bar$", "-bar$", "^linux$", "^linu$", "^inux$", "linux", "^p$", `^p\/q$`, `^p\/`,
 	`^B\/op$`, `^ns\/op$`, `^s\/op$`, `^op$`, "^ns$", "^sec$", `^sec\/op$`, `B\/op`, `\AB\/op\z`, `^(?:B\/op)$`, "^x$", "^1$", "^1k$", "^k$", "^v$", "^8$", "^16$", "^6$", "^n1$", "^n$"}
 
